@@ -363,6 +363,7 @@ theorem leaf_sem (row : Row) (f op : Str) (a : Arg) (l : Leaf) (vs : List Value)
           | int i => simp at h; subst h; simp [leafWhere, bindAll, pure, Except.pure, bind, Except.bind] at hb; subst hb; exact sem_cmp row f .eq _
           | text t => simp at h; subst h; simp [leafWhere, bindAll, pure, Except.pure, bind, Except.bind] at hb; subst hb; exact sem_cmp row f .eq _
           | blob t => simp at h; subst h; simp [leafWhere, bindAll, pure, Except.pure, bind, Except.bind] at hb; subst hb; exact sem_cmp row f .eq _
+          | obj k t => simp at h; subst h; simp [leafWhere, bindAll, pure, Except.pure, bind, Except.bind] at hb; subst hb; exact sem_cmp row f .eq _
         | list ws => simp at h; subst h; exact sem_inl row f false ws vs hb
         | set ws => simp at h; subst h; simp [leafWhere, bindAll] at hb
       | ne =>
@@ -373,6 +374,7 @@ theorem leaf_sem (row : Row) (f op : Str) (a : Arg) (l : Leaf) (vs : List Value)
           | int i => simp at h; subst h; simp [leafWhere, bindAll, pure, Except.pure, bind, Except.bind] at hb; subst hb; exact sem_cmp row f .ne _
           | text t => simp at h; subst h; simp [leafWhere, bindAll, pure, Except.pure, bind, Except.bind] at hb; subst hb; exact sem_cmp row f .ne _
           | blob t => simp at h; subst h; simp [leafWhere, bindAll, pure, Except.pure, bind, Except.bind] at hb; subst hb; exact sem_cmp row f .ne _
+          | obj k t => simp at h; subst h; simp [leafWhere, bindAll, pure, Except.pure, bind, Except.bind] at hb; subst hb; exact sem_cmp row f .ne _
         | list ws => simp at h; subst h; exact sem_inl row f true ws vs hb
         | set ws => simp at h; subst h; simp [leafWhere, bindAll] at hb
       | gt =>
@@ -412,6 +414,7 @@ theorem leaf_sem (row : Row) (f op : Str) (a : Arg) (l : Leaf) (vs : List Value)
         | int i => simp at h
         | text t => simp at h
         | blob t => simp at h
+        | obj k t => simp at h
       | list ws => simp at h
       | set ws => simp at h
     | like neg =>
@@ -421,6 +424,7 @@ theorem leaf_sem (row : Row) (f op : Str) (a : Arg) (l : Leaf) (vs : List Value)
         | null => simp at h
         | int i => simp at h
         | blob t => simp at h
+        | obj k t => simp at h
         | text t =>
           simp at h; subst h
           simp [leafWhere, bindAll, pure, Except.pure, bind, Except.bind] at hb; subst hb
